@@ -6,6 +6,7 @@ import QuiverModel.Lemmas.Packaging.Inject
 import QuiverModel.Lemmas.Packaging.Nested
 import QuiverModel.Lemmas.Packaging.Canon
 import QuiverModel.Lemmas.Packaging.Mark
+import QuiverModel.Core.Packaging.Merge
 /-
 C10 — packaging steps preserve behaviour (property theorems).
 
@@ -693,5 +694,17 @@ theorem legacy_shake_loses_process_entry :
     ((treeShakeWith true exF13 0).map (fun o => (o.prog.types.size, o.prog.tagPresent (.proc 1)))) = some (2, false) ∧
     ((treeShake exF13 0).map (fun o => (o.prog.types.size, o.prog.tagPresent (.proc 1)))) = some (3, true) := by
   decide
+
+/-- `merge_isRenaming`, as a statement: merging `src` into any environment program `env` gives a program
+    that is a structural renaming of `src` by the remap tables of the merge (deduplication and shifting
+    never conflate two different source entries). NOT proved — the port `mergeBytecode`
+    (Core/Packaging/Merge.lean) is tied to environment.rs by exact equality of the environment's program
+    after every merge the harness performs, and every instance is validated with the port's own tables
+    (`merge:model-equals-merge_bytecode`); a proof needs the injectivity argument for `register_*` on a
+    deduplicated source (two distinct deduplicated source entries stay distinct after a consistent,
+    injective remap of their children) by induction over the import order. -/
+def MergeIsRenamingStatement : Prop :=
+  ∀ (env src : Prog) (e : Nat) (out : MergeOut), mergeBytecode env src e = some out →
+    IsStructRenaming out.ren src out.prog e out.entry
 
 end C10
